@@ -23,7 +23,7 @@ DEVS = ["Dev_CrlfBlankIndented", "Dev_NoEscape", "Dev_EscapeRaw", "Dev_ZeroFalsy
         "Dev_CloseNotChecked", "Dev_InnermostOnly", "Dev_PartialEager"]
 INVS = ["Refines", "BalanceAgrees"]
 # the evaluator recurses as deep as the templates nest: large thread stacks
-JVM = {"JAVA_TOOL_OPTIONS": "-Xss256m -Xmx4g -DTLA-Library=%s" % os.pathsep.join([os.path.join(vf.SPEC, "common"), SPECDIR])}
+JVM = {"JAVA_TOOL_OPTIONS": "-Xss256m -Xmx4g -XX:ParallelGCThreads=2 -DTLA-Library=%s" % os.pathsep.join([os.path.join(vf.SPEC, "common"), SPECDIR])}
 JVMV = {"JAVA_TOOL_OPTIONS": JVM["JAVA_TOOL_OPTIONS"] + " -Dtlc2.tool.queue.IStateQueue=StateDeque"}
 # family name, alphabet, resolvers, MaxLen quick, MaxLen thorough
 CONFIGS = [
@@ -68,17 +68,16 @@ def mc(ck, name, families, emit=True, tables=False, devinv=False, flag=None):
 
 def dev_selftest(ck):
     """every deviation must make TLC report a violation of Refines on a small family that contains a witness for each
-    (one TLC run with -continue and coverage, which also shows that the generator's action is taken: the invariant
-    Inv_Dev_X is Refines with F = {X}).  The thorough tier additionally sets each CONSTANT Dev_* flag TRUE in its own run."""
+    (one TLC run with -continue: the invariant Inv_Dev_X is Refines with F = {X}).  The thorough tier additionally sets each CONSTANT Dev_* flag TRUE in its own run."""
     mod, cfg = mc(ck, "dev", [("devA", ["Vq", "Rq", "D100", "Pm", "Pmmc", "W2"], [True], 2),
                               ("devB", ["Oi", "Ci", "X", "Iz", "Cz", "Oo", "Co", "NL", "Ca", "Vk", "Of", "Pno", "Cf"], [True], 3)], devinv=True)
-    r = vf.run_tlc(mod, cfg, tag="X17_dev", workers=1, timeout=900, lib_dirs=[SPECDIR], env=JVM, coverage=True, extra=["-continue"])
+    r = vf.run_tlc(mod, cfg, tag="X17_dev", workers=1, timeout=900, lib_dirs=[SPECDIR], env=JVM, extra=["-continue"])
     hit = set(re.findall(r"Invariant Inv_(Dev_\w+) is violated", r.out))
     if hit != set(DEVS):
         raise vf.Infra("self-test: deviations not caught by TLC: %s (%s)" % (sorted(set(DEVS) - hit), (r.out or "")[-600:]))
-    if r.coverage.get("Next", (0, 0))[1] == 0:
-        raise vf.Infra("self-test: action Next of Mustache.tla never taken")
-    xc.account(ck, r, "Mustache.")
+    # coverage (expensive with deep recursion, hence on the small static configuration): the generator's action is taken
+    rc, _ = xc.run_gen(ck, os.path.join(SPECDIR, "MCMustache.tla"), os.path.join(SPECDIR, "MCMustache.cfg"), "cov", "Mustache.", ["Next"],
+                       workers=1, invariant_is_violation=False, env=JVM)
     if ck.tier == "thorough":
         fams = [("devA", ["Vq", "Rq", "D100", "Pm", "Pmmc", "W2"], [True], 2),
                 ("devB", ["Oi", "Ci", "X", "Iz", "Cz", "Oo", "Co", "NL", "Ca", "Vk", "Of", "Pno", "Cf"], [True], 3)]
@@ -87,8 +86,8 @@ def dev_selftest(ck):
             m2, c2 = mc(ck, "flag_" + d, fams, emit=False, flag=d)
             jobs.append((d, m2, c2, ("Refines",)))
         xc.dev_selftests(ck, jobs, parallel=2, env=JVM)
-    return "each of %d deviations makes TLC report a violation of Refines (%s); %d states, action Next taken %d times" % (
-        len(DEVS), ", ".join(DEVS), r.distinct, r.coverage["Next"][1])
+    return "each of %d deviations makes TLC report a violation of Refines (%s); coverage run: action Next taken %d times" % (
+        len(DEVS), ", ".join(DEVS), rc.coverage["Next"][1])
 
 
 def plain_json(v):
